@@ -74,7 +74,8 @@ def facts_of_case(case):
 # ---------------------------------------------------------------------------
 # cast oracle
 # ---------------------------------------------------------------------------
-CAST_OPS = ["from_data", "dtype_request", "aspolynomial", "aspolynomial_poly", "from_attributes",
+CAST_OPS = ["multiply3", "power3", "aspolynomial_names",
+            "from_data", "dtype_request", "aspolynomial", "aspolynomial_poly", "from_attributes",
             "from_attributes_mixed", "dict_mixed", "variable", "symbols", "astype", "add", "subtract",
             "multiply", "power", "getitem", "reshape", "transpose", "concatenate", "stack", "where",
             "scalar_from_data"]
@@ -238,6 +239,31 @@ def run_cast_case(case, ctx):
                 ab = numpy.multiply(a, b)
                 want = {(0,): ab, (1,): ab, (2,): ab, (3,): ab}
                 check_terms(ctx, facts, case, got, want, res_dtype, "multiply of dtypes")
+            elif op == "multiply3":
+                # three-term operands: several products land on the same exponent
+                if res_dtype == numpy.dtype(bool):
+                    return
+                x = numpoly.polynomial_from_attributes([[0], [1], [2]], [a, a, a], names=("q0",))
+                y = numpoly.polynomial_from_attributes([[0], [1], [2]], [b, b, b], names=("q0",))
+                ab = numpy.multiply(a, b)
+                want = {(0,): ab, (1,): ab + ab, (2,): ab + ab + ab, (3,): ab + ab, (4,): ab}
+                check_terms(ctx, facts, case, x * y, want, res_dtype, "multiply (colliding products)")
+            elif op == "power3":
+                if S == "bool":
+                    return
+                small = (a % 2).astype(S) if numpy.dtype(S).kind in "iu" else a
+                x = numpoly.polynomial_from_attributes([[0], [1], [2]], [small, small, small],
+                                                       names=("q0",))
+                sq = small * small
+                want = {(0,): sq, (1,): sq + sq, (2,): sq + sq + sq, (3,): sq + sq, (4,): sq}
+                check_terms(ctx, facts, case, x ** 2, want, S, "power of a three-term polynomial")
+            elif op == "aspolynomial_names":
+                src = two_term(a)
+                for label, names in (("tuple", src.names), ("poly", src), ("list", list(src.names))):
+                    got = numpoly.aspolynomial(src, names=names, dtype=T)
+                    if not check_terms(ctx, facts, case, got, {(0,): cast(a, T), (1,): cast(a, T)},
+                                       T, f"aspolynomial(poly, names={label}, dtype=T)"):
+                        break
             elif op == "power":
                 if S == "bool":
                     return
@@ -318,6 +344,11 @@ def special_cases(g):
         out.append({"op": "monomial", "operands": [], "kw": {"stop": g.rng.choice([2, 3, 4]),
                                                             "dims": g.rng.choice([1, 2])}})
         out.append({"op": "roundtrip_pickle", "operands": [p], "kw": {}})
+        vec = g.poly(shape=(3,), kind=g.rng.choice(["int", "float"]), allow_views=False)
+        for sub in ("pickle", "astype", "polynomial", "getitem", "add", "negative", "sum",
+                    "concatenate", "copy", "reshape", "set_dimensions", "derivative", "call",
+                    "equal", "tonumpy"):
+            out.append({"op": "empty_input", "operands": [vec], "kw": {"sub": sub}})
     return out
 
 
@@ -354,6 +385,39 @@ def run_special(case, real):
         return numpoly.monomial(kw["stop"], dimensions=kw["dims"])
     if op == "roundtrip_pickle":
         return pickle.loads(pickle.dumps(real[0]))
+    if op == "empty_input":
+        empty = real[0][:0]
+        sub = kw["sub"]
+        if sub == "pickle":
+            return pickle.loads(pickle.dumps(empty))
+        if sub == "astype":
+            return empty.astype(float)
+        if sub == "polynomial":
+            return numpoly.polynomial(empty), numpoly.aspolynomial(empty, dtype=float)
+        if sub == "getitem":
+            return empty[...], empty[::-1], empty[None]
+        if sub == "add":
+            return empty + 1, empty + numpoly.variable()
+        if sub == "negative":
+            return -empty
+        if sub == "sum":
+            return numpoly.sum(empty), numpoly.cumsum(empty)
+        if sub == "concatenate":
+            return numpoly.concatenate([empty, real[0]]), numpoly.concatenate([empty, empty])
+        if sub == "copy":
+            return empty.copy(), list(empty)
+        if sub == "reshape":
+            return numpoly.reshape(empty, (0, 2)), numpoly.transpose(empty)
+        if sub == "set_dimensions":
+            return numpoly.set_dimensions(empty, 3)
+        if sub == "derivative":
+            return numpoly.derivative(empty, empty.names[0])
+        if sub == "call":
+            return empty(1)
+        if sub == "equal":
+            return empty == empty, numpoly.isconstant(empty)
+        if sub == "tonumpy":
+            return numpoly.zeros((0,)).tonumpy(), numpoly.lead_coefficient(empty)
     raise ValueError(op)
 
 
@@ -362,7 +426,7 @@ def run_poison_case(case, ctx, poison):
 
     specs = case["operands"]
     special = case["op"] not in C.OPS and case["op"] not in ("dag",)
-    facts = {"op": case["op"],
+    facts = {"op": case["op"], "sub": case["kw"].get("sub", ""),
              "shapes": "|".join(str(tuple(G.spec_features(s)["shape"])) for s in specs)}
     if not special and specs:
         facts = catrun.case_facts(C.OPS[case["op"]], case, case.get("spelling", "numpoly"))
